@@ -460,6 +460,8 @@ func runClientCase(ctx *Ctx, m *common.Model, c KCase, idx int) *common.Violatio
 		return runSpoofCase(ctx, c, idx)
 	case "concsend":
 		return runConcSendCase(ctx, c, idx)
+	case "concecho":
+		return runConcEchoCase(ctx, c, idx)
 	}
 	return &common.Violation{Kind: "correspondence", Clause: "harness: unknown case kind " + c.Kind, Input: c, Case: idx}
 }
